@@ -15,4 +15,8 @@ if ! (cd harness && cargo build --release -p vcheck >"../$LOG" 2>&1); then
   tail -30 "$LOG" >&2
   exit 2
 fi
-exec ./target/harness/release/vcheck "$PROP" "$TIER"
+rm -f "target/hang_${PROP}.txt"
+./target/harness/release/vcheck "$PROP" "$TIER"
+code=$?
+if [ -f "target/hang_${PROP}.txt" ]; then cat "target/hang_${PROP}.txt" >&2; fi
+exit $code
